@@ -2,8 +2,8 @@ package main
 
 import (
 	"fmt"
-	"math"
 	"go/token"
+	"math"
 	"sort"
 
 	"golang.org/x/tools/go/ssa"
